@@ -516,11 +516,13 @@ func quiescent(c *common.Ctx, r *common.Rand) error {
 	g.attach()
 	script := []hist.Step{
 		{Op: "rtx", Writes: map[uint32]uint64{1: 1, 2: 2, 3: 3, 4: 4, 5: 5, 6: 6}, NewSize: 6, ToWAL: true},
-		{Op: "wtx", Frames: [][2]uint64{{2, 12}, {3, 13}, {4, 14}}, NewSize: 6},
-		{Op: "wtx", Frames: [][2]uint64{{5, 25}, {2, 22}}, NewSize: 6},
+		{Op: "wtx", Frames: [][2]uint64{{2, 12}, {3, 13}, {4, 14}, {1, 11}}, NewSize: 6},
+		{Op: "wtx", Frames: [][2]uint64{{5, 25}, {2, 22}, {1, 21}}, NewSize: 6},
 		{Op: "appckpt", CkptMode: 2}, // everything copied back, the log restarts
-		{Op: "wtx", Frames: [][2]uint64{{3, 33}}, NewSize: 6}, // lands in the slot page 2 had in the old generation
-		{Op: "wtx", Frames: [][2]uint64{{6, 46}}, NewSize: 6},
+		// the new generation's frames land in slots that held other pages in the old one: page 3 where page 2 was, page 1
+		// where page 3 was, page 6 where page 4 was
+		{Op: "wtx", Frames: [][2]uint64{{3, 33}, {1, 31}}, NewSize: 6},
+		{Op: "wtx", Frames: [][2]uint64{{6, 46}, {1, 41}}, NewSize: 6},
 		{Op: "lfsckpt"},
 		{Op: "wtx", Frames: [][2]uint64{{4, 54}, {4, 55}}, NewSize: 5},
 		{Op: "appckpt", CkptMode: 3},
@@ -568,6 +570,11 @@ func Run(c *common.Ctx) error {
 	}
 	if err := quiescent(c, c.Rng.Fork()); err != nil {
 		return err
+	}
+	for _, second := range []string{"export", "snapshot"} {
+		if err := overlappingReaders(c, c.Rng.Fork(), second); err != nil {
+			return err
+		}
 	}
 	if err := exportDuringHaltRelease(c, c.Rng.Fork()); err != nil {
 		return err
